@@ -14,6 +14,7 @@ CONSTANTS NCo,       \* coroutines 1..NCo; 0 is the main thread
           MaxSteps,  \* script actions in total
           MaxVals,   \* values passed per transfer: 0..MaxVals
           Tbc,       \* TRUE: scripts may declare to-be-closed variables
+          EmitAll,   \* TRUE: one line per transition; FALSE: only complete scripts (simulation)
           ViewHist   \* how many trailing actions the VIEW distinguishes (more = more distinct scripts explored)
 
 VARIABLES st,       \* [1..NCo -> "suspended" | "running" | "normal" | "dead"]
@@ -77,10 +78,10 @@ Step(who, act, st2, started2, chain2, via2, cerr2, pend2, kk2, evs) ==
   /\ n' = n + 1
   /\ out' = out \o evs
   /\ hist' = Append(hist, [who |-> who, k |-> n + 1] @@ act)
-  /\ Emit([h |-> hist', ev |-> out',
+  /\ (IF EmitAll \/ n + 1 = MaxSteps THEN Emit([h |-> hist', ev |-> out',
            tail |-> TailFrom(chain2, pend2, via2, kk2, <<>>),
            final |-> FinalStatus(chain2, st2),
-           started |-> started2])
+           started |-> started2]) ELSE TRUE)
 
 (* helper to set a function at one point *)
 Upd(f, x, v) == [f EXCEPT ![x] = v]
